@@ -20,7 +20,7 @@ import (
 // precommitted, and height <= nextParamsHeight-1 where nextParamsHeight is the first height above
 // certified+1 with stored BFT parameters, LIP-0061).
 //
-//zz:opt loop=24 require=accepted,accepted-empty,rejected
+//zz:opt loop=80 require=accepted,accepted-empty,rejected
 //zz:stub (*~/pkg/consensus/liskbft.API).GetBFTHeights zz06StubGetBFTHeights
 //zz:stub (*~/pkg/consensus/liskbft.API).NextHeightBFTParameters zz06StubNextHeightBFTParameters
 //zz:stub (*~/pkg/consensus/liskbft.API).GetBFTParameters zz06StubGetBFTParameters
@@ -184,7 +184,7 @@ func zzH_C06_commit_weights(t *zzT) {
 // arbitrary signer subset whose single commits (created with the real NewSingleCommit) are in the
 // pool for height 5; certified = 3, precommitted = 9, no later parameter change.
 //
-//zz:opt loop=24 require=aggregated,empty
+//zz:opt loop=80 require=aggregated,empty
 //zz:quick N=3
 //zz:thorough N=4
 //zz:stub (*~/pkg/consensus/liskbft.API).GetBFTHeights zz06StubGetBFTHeights
@@ -453,4 +453,60 @@ func zzH_C06_single_commit_validator(t *zzT) {
 	t.Assert(t.Or(!ok, e.precommitted < certificate.CommitRangeStored), "a single commit fulfilling every LIP-0061 condition enters the pool (maxHeightPrecommited >= 100)")
 	t.Assert(t.Or(!ok, e.precommitted >= certificate.CommitRangeStored), "a single commit fulfilling every LIP-0061 condition enters the pool (first 100 heights: maxHeightPrecommited < 100)")
 	t.Reach("discarded")
+}
+
+// C06.f (consensus side): the pool clean-up performed by broadcastCertificate. LIP-0061 removes a
+// single commit m only if m.height <= maxRemovalHeight, or if m.height is older than the stored range
+// (m.height < maxHeightPrecommited - 100, computed without wrap-around) and m.height+1 is not a
+// BFT-parameter-change height. One own single commit (real NewSingleCommit) at a symbolic height is
+// in the pool; all heights are symbolic 32-bit values.
+//
+//zz:opt loop=200 require=kept,removed
+//zz:stub (*~/pkg/consensus/liskbft.API).GetBFTHeights zz06StubGetBFTHeights
+//zz:stub (*~/pkg/consensus/liskbft.API).ExistBFTParameters zz06StubExistBFTParameters
+//zz:stub (*~/pkg/consensus/liskbft.API).GetBFTParameters zz06StubGetBFTParameters
+//zz:stub (*~/pkg/consensus/liskbft.BFTParams).Validators zz06StubValidators
+//zz:stub (*~/pkg/blockchain.DataAccess).GetBlockHeaderByHeight zz06StubGetBlockHeaderByHeight
+//zz:stub (*~/pkg/blockchain.Chain).LastBlock zz06StubLastBlock
+//zz:stub (*~/pkg/p2p.GossipSub).Publish zz06StubPublish
+//zz:stub ~/pkg/crypto.BLSSign zz06StubBLSSign
+func zzH_C06_broadcast_cleanup(t *zzT) {
+	e := zz06NewEnv(t, 2, []byte{1, 2})
+	e.precommitted = t.U32("maxHeightPrecommited")
+	e.prevoted, e.certified = e.precommitted, 0
+	e.removalHeight = t.U32("removalHeight")
+	e.tip = t.U32("tip")
+	t.Assume(e.tip >= e.precommitted && e.tip < 1<<32-1)
+	e.hasNext = t.Bool("params2.exists")
+	e.nextH = t.U32("params2.height")
+	t.Assume(e.nextH >= 1)
+	e.setParams(e.setA, 1, []uint64{1, 1})
+	e.setParams(e.setB, 1, []uint64{1, 1})
+	h := t.U32("commit.height")
+	t.Assume(h <= e.tip)
+	e.install()
+	e.storeHeaders(e.tip, e.precommitted)
+	hd := e.header(h)
+	e.bls.msg = zz06CertMsg(hd, e.chainID)
+	sc := certificate.NewSingleCommit(hd, zz06Addr(0), e.chainID, e.bls.sks[0])
+	e.ex.certificatePool.Add(sc)
+
+	_ = e.ex.broadcastCertificate()
+	kept := e.ex.certificatePool.Has(sc)
+	t.Assert(e.ex.certificatePool.Size() == t.IteInt(kept, 1, 0), "clean-up neither duplicates nor invents commits")
+
+	changeNext := t.And(e.hasNext, e.nextH == h+1) // h+1 >= 1, so set A at height 0 never matters
+	tooOld := uint64(h)+uint64(certificate.CommitRangeStored) < uint64(e.precommitted)
+	lipRemove := t.Or(h <= e.removalHeight, t.And(!changeNext, tooOld))
+	if kept {
+		t.Assert(!lipRemove, "clean-up removes commits at or below the removal height and commits older than the stored range")
+		t.Reach("kept")
+		return
+	}
+	// liveness of the pool, one label per region
+	first100 := e.precommitted < certificate.CommitRangeStored
+	t.Assert(t.Or(lipRemove, t.Or(first100, h >= e.precommitted)), "clean-up keeps a commit inside the stored range (maxHeightPrecommited >= 100, height < maxHeightPrecommited)")
+	t.Assert(t.Or(lipRemove, h < e.precommitted), "clean-up keeps a commit at or above maxHeightPrecommited (e.g. the own commit for the height just finalized)")
+	t.Assert(t.Or(lipRemove, t.Or(!first100, h >= e.precommitted)), "clean-up keeps a commit inside the stored range during the first 100 heights (maxHeightPrecommited < 100, height < maxHeightPrecommited)")
+	t.Reach("removed")
 }
